@@ -1228,7 +1228,14 @@ func (ex *Exec) execStmt(st *State, s ast.Stmt) (fl *Flow) {
 			p := ex.w.Fset.Position(s.Pos())
 			for k := range ex.fc.StmtHints {
 				h := &ex.fc.StmtHints[k]
-				if h.Line != p.Line || !strings.HasSuffix(p.Filename, h.File) {
+				if !strings.HasSuffix(p.Filename, h.File) {
+					continue
+				}
+				if h.Text != "" {
+					if !strings.HasPrefix(strings.TrimSpace(ex.w.sourceLine(p.Filename, p.Line)), h.Text) {
+						continue
+					}
+				} else if h.Line != p.Line {
 					continue
 				}
 				// the outermost statement starting on the line takes the hint; nested statements on the same line do not repeat it
@@ -1240,7 +1247,7 @@ func (ex *Exec) execStmt(st *State, s ast.Stmt) (fl *Flow) {
 					ex.applyLemma(st, h.Use, nil)
 				} else {
 					g := ex.specBool(st, h.Assert.E, nil)
-					ex.oblige(st, "assert", fmt.Sprintf("assert.stmt%d.%s", h.Line, clauseName(h.Assert, k)), g, h.Assert.Src)
+					ex.oblige(st, "assert", fmt.Sprintf("assert.stmt%d.%s", k, clauseName(h.Assert, k)), g, h.Assert.Src)
 					ex.assume(st, g)
 				}
 				if ex.stmtHintActive == nil {
